@@ -340,6 +340,7 @@ type layoutOpt struct {
 	slotJunk       bool // the unused bytes of an embedded value shorter than 4 bytes are arbitrary (TIFF leaves them undefined)
 	isoPair        bool // ISOSpeedRatings as SHORT x 2 (count is "any" in Exif 2.3): the first value is the ISO speed
 	zeroDen        bool // MALFORMED: some denominators of RATIONAL / SRATIONAL values are zero
+	depthFirst     bool // the blocks of a directory (its values, then its sub-directories) directly follow it, before anything else pending
 }
 
 // buildTIFF lays the record out in a forward layout and returns the bytes.
@@ -461,7 +462,11 @@ func buildTIFF(c *Ctx, r lrec, big bool, lo layoutOpt) []byte {
 		if lo.valuesFirst {
 			sort.SliceStable(mine, func(i, j int) bool { return mine[i].dir == "" && mine[j].dir != "" })
 		}
-		pending = append(pending, mine...)
+		if lo.depthFirst {
+			pending = append(append([]block{}, mine...), pending...)
+		} else {
+			pending = append(pending, mine...)
+		}
 	}
 	out = append(out, 0, 0, 0, 0)
 	out = append(out, make([]byte, lo.headerPad)...)
